@@ -13,6 +13,8 @@ mod c03;
 mod c14;
 mod ser;
 mod c05;
+mod c11;
+mod c15;
 
 use report::{Coverage, Reporter, Tier};
 
@@ -59,6 +61,8 @@ fn main() {
             "C03" => c03::replay(&rep, case),
             "C14" => c14::replay(&rep, case),
             "C05" => c05::replay(&rep, case),
+            "C11" => c11::replay(&rep, case),
+            "C15" => c15::replay(&rep, case),
             _ => usage(),
         }
         let code = rep.finish(Coverage::default());
@@ -71,6 +75,8 @@ fn main() {
         "C03" => c03::run(&rep),
         "C14" => c14::run(&rep),
         "C05" => c05::run(&rep),
+        "C11" => c11::run(&rep),
+        "C15" => c15::run(&rep),
         _ => usage(),
     };
     let code = rep.finish(cov);
